@@ -10,7 +10,7 @@
 
    Return codes, the retryable set and the sequence mask come from Generated/GenSCP.v (dumped from the
    live modules on every run). *)
-From Coq Require Import ZArith List Bool.
+From Coq Require Import ZArith List Bool Uint63.
 Require Import Rig.Generated.GenSCP Rig.Model.Base.
 Import ListNotations.
 Open Scope Z_scope.
@@ -366,18 +366,19 @@ Fixpoint expand_cmds (l : list cmdspec) : list cmd :=
   | CRun n id extra :: l' => run_cmds (N.to_nat n) id extra ++ expand_cmds l'
   end.
 
-Definition digest_mod : Z := 2305843009213693951.
-Definition digest_step (h x : Z) : Z := (h * 1000003 + x + 7) mod digest_mod.
-Definition digest_dgram (h : Z) (d : dgram) : Z :=
+(* 63-bit polynomial digest on primitive integers (Z arithmetic is too slow for 10^6 steps) *)
+Definition digest_step (h : Uint63.int) (x : Z) : Uint63.int :=
+  Uint63.add (Uint63.add (Uint63.mul h (Uint63.of_Z 1000003)) (Uint63.of_Z x)) (Uint63.of_Z 7).
+Definition digest_dgram (h : Uint63.int) (d : dgram) : Uint63.int :=
   digest_step (digest_step (digest_step h (d_rc d)) (d_seq d)) (d_src d).
-Definition digest_output (h : Z) (o : output) : Z :=
+Definition digest_output (h : Uint63.int) (o : output) : Uint63.int :=
   match o with
   | OSend tx c s t => digest_step (digest_step (digest_step (digest_step (digest_step h 1) tx) c) s) t
   | OSelect t => digest_step (digest_step h 2) t
   | ORecv d => digest_dgram (digest_step h 3) d
   | OCallback c d => digest_dgram (digest_step (digest_step h 4) c) d
   end.
-Definition digest (tr : list output) : Z := fold_left digest_output tr 0.
+Definition digest (tr : list output) : Z := Uint63.to_Z (fold_left digest_output tr (Uint63.of_Z 0)).
 
 (* long calls: compare digest, length, the last outputs, the outcome *)
 Definition summary (n : nat) (r : list output * outcome * nat) : Z * nat * list output * outcome * nat :=
